@@ -2,7 +2,7 @@
    Only statements closed by `exact`, each followed by Print Assumptions. *)
 From Coq Require Import ZArith List Bool.
 From MV Require Import Topo.CheckMeshDefs Topo.CheckMesh Topo.PipelineDefs Topo.Pipeline Topo.HalfedgeDefs Topo.HalfedgeSmall
-  Topo.EdgeOpsDefs Topo.EdgeOps Topo.PipelineRows Topo.Gate.
+  Topo.EdgeOpsDefs Topo.EdgeOps Topo.PipelineRows Topo.Gate Topo.Compaction.
 From Coq Require Import Permutation Sorted.
 Import ListNotations.
 Local Open Scope Z_scope.
@@ -33,7 +33,7 @@ Print Assumptions check_counts_iff.
 
 (* Abstract interpretation of the pass sequences that (re)build an Impl.  For every
    pass list, every start state (any state for a pipeline that fills a fresh Impl;
-   a clean state - no stranded vertex, no tombstone, sorted - for one that starts
+   a clean state - no stranded vertex, no tombstone, sorted, no duplicate edge / pinched vertex - for one that starts
    from an existing Manifold) and every run allowed by the per-pass effect relations
    `exec`: if pipeline_ok accepts the list, the run ends clean.  The pass lists are
    regenerated from the C++ on every run (Gen/Pipelines.v) and judged by the
@@ -51,10 +51,19 @@ Print Assumptions pipeline_ok_sound.
 Example refine_shape_rejected : pipeline_ok false [Subdivide; SortGeometry] = false.
 Proof. exact refine_shape_not_ok. Qed.
 Example refine_shape_has_bad_run :
-  exists s', exec_all [Subdivide; SortGeometry] (mkC 0 0 true) s' /\ n_stranded s' = 1%nat.
+  exists s', exec_all [Subdivide; SortGeometry] (mkC 0 0 true 0) s' /\ n_stranded s' = 1%nat.
 Proof. exact refine_shape_bad_run. Qed.
 Example refine_fixed_shape_accepted : pipeline_ok false [Subdivide; RemoveUnreferencedVerts; SortGeometry] = true.
 Proof. exact refine_fixed_shape_ok. Qed.
+(* the state also tracks duplicate directed edges / pinched vertices: CleanupTopology removes them but, when
+   there are any, DedupeEdge can leave the original vertex unreferenced (seen by the Impl-level oracle), so a
+   cleaning pipeline still needs RemoveUnreferencedVerts; a pipeline starting from a 2-manifold does not. *)
+Example cleanup_without_remove_rejected : pipeline_ok true [CreateHalfedges; CleanupTopology; SortGeometry] = false.
+Proof. exact cleanup_without_remove_not_ok. Qed.
+Example import_shape_accepted : pipeline_ok true [CreateHalfedges; CleanupTopology; RemoveUnreferencedVerts; SortGeometry] = true.
+Proof. exact import_shape_ok. Qed.
+Example simplify_shape_accepted : pipeline_ok false [SimplifyTopology; SortGeometry] = true.
+Proof. exact simplify_shape_ok. Qed.
 
 (* The RemoveUnreferencedVerts row on arrays (isnan.[v] = vertPos_[v] is NaN; starts =
    halfedge start vertices): afterwards no vertex is both non-NaN and unreferenced, for
@@ -175,3 +184,46 @@ Proof.
   exact (conj (stable_sort_perm_lemma key l) (conj (stable_sort_sorted_lemma key l) (fun k => stable_sort_stable_lemma key k l))).
 Qed.
 Print Assumptions stable_sort_contract.
+
+(* compaction_exports_closed (DESIGN.md C01), for every mesh state and every pair of Morton
+   orders that meet the stated contracts: from HalfedgeInv, "a vertex is NaN iff unreferenced",
+   start vertices in range and Is2Manifold's "no live directed edge twice"; vertNew2Old a
+   duplicate-free list of all vertices with exactly the non-NaN ones first; faceNew2Old listing
+   exactly the live faces - whenever the ported SortVerts and SortFaces are defined (no
+   out-of-bounds access), the triangles GetMeshGLImpl then emits are a closed oriented
+   2-manifold over 0..NumVert-1, and the extracted check_mesh accepts them.
+   (Definedness of the two calls under these hypotheses is not proved; the correspondence run
+   exercises it.  Merge vectors / property vertices of GetMeshGLImpl are not modelled.) *)
+Theorem compaction_exports_closed :
+  forall (m m1 m2 : mesh) (vertNew2Old faceNew2Old : list Z),
+    halfedge_inv (hs m) = true ->
+    nan_iff_unreferenced m = true ->
+    starts_in_range m = true ->
+    NoDup (map (edge_at (hs m)) (flat_map idx3 faceNew2Old)) ->
+    NoDup vertNew2Old -> length vertNew2Old = length (nan m) ->
+    (forall k o, nth_error vertNew2Old k = Some o ->
+       (getZ (nan m) o = Some false <-> (k < count_live_verts (nan m))%nat)) ->
+    (forall f e, In f faceNew2Old -> In e (idx3 f) -> exists s p, getZ (hs m) e = Some (s, p) /\ s <> -1) ->
+    (forall e s p, getZ (hs m) e = Some (s, p) -> s <> -1 -> In e (flat_map idx3 faceNew2Old)) ->
+    sort_verts m vertNew2Old = Some m1 -> sort_faces m1 faceNew2Old = Some m2 ->
+    Closed2Manifold (Z.of_nat (length (nan m2))) (tris_of (hs m2)) /\
+    check_mesh (Z.of_nat (length (nan m2))) (tris_of (hs m2)) = true.
+Proof.
+  intros m m1 m2 n2o f2o H1 H2 H3 H4 H5 H6 H7 H8 H9 H10 H11.
+  pose proof (compaction_exports_closed_lemma m m1 m2 n2o f2o H1 H2 H3 H4 H5 H6 H7 H8 H9 H10 H11) as C.
+  exact (conj C (check_mesh_complete _ _ C)).
+Qed.
+Print Assumptions compaction_exports_closed.
+
+(* the hypotheses are satisfiable and the functions defined: a tetrahedron on vertices 0,2,3,4 of 5
+   (vertex 1 is NaN and unreferenced) with one tombstone triangle in slot 1 *)
+Example compaction_example :
+  let m := mkMesh [(0,8);(3,12);(2,9);(-1,-1);(-1,-1);(-1,-1);(0,11);(4,13);(3,0);(0,2);(2,14);(4,6);(2,1);(3,7);(4,10)]
+                  [false; true; false; false; false] in
+  halfedge_inv (hs m) = true /\ nan_iff_unreferenced m = true /\ starts_in_range m = true /\
+  match sort_verts m [4; 0; 3; 2; 1] with
+  | Some m1 => match sort_faces m1 [4; 0; 3; 2] with
+               | Some m2 => check_mesh (Z.of_nat (length (nan m2))) (tris_of (hs m2)) = true
+               | None => False end
+  | None => False end.
+Proof. vm_compute. repeat split; reflexivity. Qed.
